@@ -116,8 +116,13 @@ def probe_data(K):
 
 
 def probe_call(K, P=1, mp=False, orders=None, log=None, seed=99):
-    """the probe: default path (real mixture model), seeded global generators, real pool"""
+    """the probe: default path (real mixture model), seeded global generators, real pool.
+    K == "repop": a K=2 run whose first relabelling collapses a cluster, so that round 1 draws
+    donor points from the global Python generator."""
     import fast_ticc
+    repop = (K == "repop")
+    if repop:
+        K = 2
     series, W = probe_data(K)
     np.random.seed(seed)
     random.seed(seed)
@@ -131,11 +136,14 @@ def probe_call(K, P=1, mp=False, orders=None, log=None, seed=99):
         factory = "real"
     else:
         factory = realpool.make_factory(K, orders=orders, log=log)
-    TRACER.begin(init_labels=None, pool_factory=factory)
+    TRACER.begin(init_labels=None, pool_factory=factory, real_random=True)
     try:
-        return fast_ticc.ticc_labels(series.copy(), window_size=W, num_clusters=K, sparsity_weight=0.11,
-                                     label_switching_cost=2.0, iteration_limit=4, num_processors=P,
-                                     min_cluster_size=2)
+        res = fast_ticc.ticc_labels(series.copy(), window_size=W, num_clusters=K, sparsity_weight=0.11,
+                                    label_switching_cost=1e6 if repop else 2.0, iteration_limit=4,
+                                    num_processors=P, min_cluster_size=3 if repop else 2)
+        if repop and not any(ev["phase"] == "repop" and ev.get("out") is not ev.get("in") for ev in TRACER.events):
+            raise HarnessError("the repopulation probe did not repopulate")
+        return res
     finally:
         os.environ.pop("CUPCAKE_ENABLE_MULTIPROCESSING", None)
 
@@ -195,7 +203,7 @@ def history_call(shape):
     import fast_ticc
     TRACER.install()
     TRACER.deep = False
-    TRACER.begin(init_labels=None, pool_factory="real")
+    TRACER.begin(init_labels=None, pool_factory="real", real_random=True)
     try:
         if shape == "other_shape":
             s = ml.two_regime_series(16, 3, 5)
@@ -248,7 +256,7 @@ def task_history(task):
     (hist,) = task
     for sh in hist:
         history_call(sh)
-    return result_digest(guarded_probe(2))
+    return result_digest(guarded_probe(2)) + "/" + result_digest(guarded_probe("repop"))
 
 
 def run(ctx):
@@ -299,13 +307,15 @@ def run(ctx):
         acc.count("distinct_task_to_worker_patterns_observed", by=len(patterns))
         acc.sample({"kind": "real", "K": K, "schedules": len(sched), "rounds": rounds,
                     "example": [list(map(str, s)) for s in sched[:3]]})
-        # (3) repeats
-        (a, b) = realpool.fresh_map(task_repeat, [(K,)])[0]
-        acc.n += 2
-        if a != b:
-            acc.fail({"kind": "repeat", "K": K}, "two same-seed runs in one process differ")
-        if a != refd:
-            acc.fail({"kind": "repeat", "K": K}, "same-seed runs in two processes differ")
+        # (3) repeats (also with a probe that repopulates, i.e. consumes the global Python generator)
+        for KK in (K, "repop"):
+            [(a, b), (c, _d)] = realpool.fresh_map(task_repeat, [(KK,), (KK,)])
+            acc.n += 3
+            acc.nontrivial += 3
+            if a != b:
+                acc.fail({"kind": "repeat", "K": KK}, f"two same-seed runs ({KK}) in one process differ")
+            if a != c:
+                acc.fail({"kind": "repeat", "K": KK}, f"same-seed runs ({KK}) in two processes differ")
     # (4) histories
     h = 3 if ctx.thorough else 2
     hists = [()]
@@ -332,7 +342,7 @@ def run(ctx):
         "GMM path with seeded global RNGs: num_processors 1..8 x CUPCAKE_ENABLE_MULTIPROCESSING off/on x every "
         "feasible forced completion permutation (handshake); a schedule "
         "whose arrival log differs from its script is a harness error; (3) same seeds twice in one process and "
-        "across processes; (4) every history of up to " + str(h) + " preceding calls from "
+        "across processes, for the ordinary probe and for a probe that repopulates (draws from the global Python generator); (4) every history of up to " + str(h) + " preceding calls from "
         + str(list(SHAPES)) + " before the probe, each history in its own fresh process. Oracle: complete result "
         "bitwise equal to the reference. non-trivial = non-default orders / non-empty histories")
     ctx.assumptions += [
